@@ -89,6 +89,9 @@ def run_check(pid, tier, replay=None):
     if replay:
         return mod.replay(ctx, json.load(open(replay)))
     known = [f for f in common.load_known() if f["property"] == pid and f.get("status", "open") == "open"]
+    import glob
+    for old in glob.glob(os.path.join(common.VERIF, "replays", f"{pid}-*.json")):
+        os.remove(old)
 
     # 1. regenerate the extracted part of the model
     ctx.consts, ctx.poseidon, ext_errors = common.regenerate()
